@@ -67,6 +67,17 @@ def run(ctx):
         if not ok:
             res.add(Finding('C11', 'C11.a', 'R-PROV', gd.file, gd.qualname, gd.node.lineno, '; '.join(norm(r) for r in rets),
                             '%s.get_data hands out a value that did not pass through the codec copy in this call: callers can alter the recording' % c.name))
+    pcf = None
+    for m_ in repo.modules.values():
+        if 'pickle_copy' in m_.functions:
+            pcf = m_.functions['pickle_copy']
+    if pcf is None:
+        raise AnalysisError('anchor-lost function=pickle_copy')
+    from . import c01
+    okpc, whypc = c01.is_decode_encode(pcf)
+    ca.instance('pickle_copy copies through the codec on every path (no type is handed back as is)', pcf.qualname, okpc, detail=whypc)
+    if not okpc:
+        res.add(Finding('C11', 'C11.a', 'R-PROV', pcf.file, pcf.qualname, pcf.node.lineno, 'pickle_copy', whypc + ' (a tuple / frozenset can hold mutable members)'))
     gi = repo.cls('Recording').methods.get('__getitem__')
     okg = gi is not None and any(isinstance(n, ast.Call) and isinstance(n.func, ast.Attribute) and n.func.attr == 'get_data' for n in ast.walk(gi.node)) and \
         not any(isinstance(n, ast.Call) and isinstance(n.func, ast.Attribute) and n.func.attr == 'get_data_direct' for n in ast.walk(gi.node))
